@@ -111,9 +111,26 @@ fn gen_prim(r: &mut Rng) -> Ty {
     match r.below(9) { 0 => Ty::U8, 1 => Ty::U16, 2 => Ty::U32, 3 | 4 => Ty::U64, 5 => Ty::Bool, 6 => Ty::B256, 7 => Ty::U256, _ => Ty::Str(1 + r.below(11) as usize) }
 }
 
+/// a struct/tuple type that contains at least one sub-word leaf (bool/u8) next to other leaves
+fn gen_subword_agg(r: &mut Rng, d: &mut Decls) -> Ty {
+    let n = 2 + r.below(3) as usize;
+    let hot = r.below(n as u64) as usize;
+    let fs: Vec<Ty> = (0..n).map(|i| if i == hot || r.chance(1, 3) { if r.chance(1, 2) { Ty::U8 } else { Ty::Bool } } else { gen_prim(r) }).collect();
+    if r.chance(1, 2) { Ty::Tuple(fs) } else { d.structs.push(fs); Ty::Struct(d.structs.len() - 1) }
+}
+
 fn gen_ty(r: &mut Rng, d: &mut Decls, depth: u32) -> Ty {
-    if depth == 0 || r.chance(2, 5) { return gen_prim(r); }
-    match r.below(5) {
+    if depth == 0 || r.chance(1, 3) { return gen_prim(r); }
+    match r.below(7) {
+        5 => {
+            // enum / Option whose variants carry aggregate payloads with sub-word members
+            if r.chance(1, 2) { return Ty::Opt(Box::new(gen_subword_agg(r, d))); }
+            let n = 1 + r.below(3);
+            let vs: Vec<Ty> = (0..n).map(|_| match r.below(4) { 0 => Ty::Unit, 1 => gen_prim(r), _ => gen_subword_agg(r, d) }).collect();
+            d.enums.push(vs);
+            Ty::Enum(d.enums.len() - 1)
+        }
+        6 => gen_subword_agg(r, d),
         0 => { let n = 1 + r.below(4); Ty::Tuple((0..n).map(|_| gen_ty(r, d, depth - 1)).collect()) }
         1 => {
             if !d.structs.is_empty() && r.chance(1, 3) { return Ty::Struct(r.below(d.structs.len() as u64) as usize); }
@@ -134,9 +151,12 @@ fn gen_ty(r: &mut Rng, d: &mut Decls, depth: u32) -> Ty {
     }
 }
 
+/// Sub-word and word values are never the all-zero default (a misplaced or dropped byte must be
+/// visible); 64-bit values may be 0 occasionally.
 fn gen_u64(r: &mut Rng, bits: u32) -> u64 {
     let max = if bits == 64 { u64::MAX } else { (1u64 << bits) - 1 };
-    match r.below(6) { 0 => 0, 1 => max, 2 => 1, 3 => r.below(256), _ => r.next() & max }
+    let v = match r.below(6) { 0 => if bits == 64 && r.chance(1, 2) { 0 } else { max - 1 }, 1 => max, 2 => 1, 3 => 1 + r.below(255), _ => r.next() & max };
+    if v == 0 && bits < 64 { 1 + r.below(max) } else { v }
 }
 
 fn gen_b32(r: &mut Rng) -> [u8; 32] {
@@ -154,14 +174,17 @@ fn gen_val(r: &mut Rng, d: &Decls, t: &Ty) -> V {
     match t {
         Ty::U8 => V::U8(gen_u64(r, 8) as u8),
         Ty::U16 => V::W(16, gen_u64(r, 16)), Ty::U32 => V::W(32, gen_u64(r, 32)), Ty::U64 => V::W(64, gen_u64(r, 64)),
-        Ty::Bool => V::Bool(r.chance(1, 2)),
+        Ty::Bool => V::Bool(r.chance(7, 8)),
         Ty::B256 => V::B32(false, gen_b32(r)), Ty::U256 => V::B32(true, gen_b32(r)),
         Ty::Str(n) => V::Str((0..*n).map(|_| *r.pick(b"abcxyzABC019_ ")).collect()),
         Ty::Unit => V::Unit,
         Ty::Tuple(_) | Ty::Struct(_) => V::Agg(d.fields(t).iter().map(|f| gen_val(r, d, f)).collect()),
         Ty::Enum(_) | Ty::Opt(_) => {
             let vs = d.variants(t);
-            let tag = r.below(vs.len() as u64) as usize;
+            let mut tag = r.below(vs.len() as u64) as usize;
+            // prefer variants with aggregate payloads (2 of 3 draws) when there are any
+            let aggs: Vec<usize> = vs.iter().enumerate().filter(|(_, v)| matches!(v, Ty::Tuple(_) | Ty::Struct(_))).map(|(i, _)| i).collect();
+            if !aggs.is_empty() && r.chance(2, 3) { tag = *r.pick(&aggs); }
             V::En(tag, Box::new(gen_val(r, d, &vs[tag])))
         }
     }
@@ -215,6 +238,74 @@ fn gen_pkg(r: &mut Rng, nfields: usize) -> Pkg {
             Some(k)
         } else { None };
         fields.push(Field { ns, name, key, ty, val });
+    }
+    Pkg { decls: d, fields }
+}
+
+/// SYSTEMATIC family (runs first on every run): every leaf type in every wrapper shape, all values
+/// non-zero and distinct per position. `half` 0: bool,u8,u16,u32 at the root; 1: u64,b256,u256 in a namespace.
+fn systematic_pkg(half: usize) -> Pkg {
+    let mut d = Decls::default();
+    let mut fields: Vec<Field> = vec![];
+    let leaves: Vec<Ty> = if half == 0 { vec![Ty::Bool, Ty::U8, Ty::U16, Ty::U32] } else { vec![Ty::U64, Ty::B256, Ty::U256] };
+    let ns: Vec<String> = if half == 0 { vec![] } else { vec!["sy".to_string()] };
+    let mut ctr: u64 = 0;
+    let mut leaf_val = |t: &Ty| -> V {
+        ctr += 1;
+        let c = ctr;
+        match t {
+            Ty::Bool => V::Bool(true),
+            Ty::U8 => V::U8((0x10 + (c % 0xe0)) as u8),
+            Ty::U16 => V::W(16, 0x2100 + c),
+            Ty::U32 => V::W(32, 0x3100_0000 + c),
+            Ty::U64 => V::W(64, 0x4100_0000_0000_0000 + c),
+            Ty::B256 | Ty::U256 => { let mut b = [0u8; 32]; for (i, x) in b.iter_mut().enumerate() { *x = (0x50 + c as usize * 7 + i) as u8 | 1; } V::B32(matches!(t, Ty::U256), b) }
+            _ => unreachable!(),
+        }
+    };
+    let wv = |ctr64: u64| V::W(64, 0x7700_0000_0000_0000 + ctr64);
+    let mut k64 = 0u64;
+    let mut w = || { k64 += 1; wv(k64) };
+    for (li, leaf) in leaves.iter().enumerate() {
+        let l = leaf.clone();
+        let mut add = |name: String, ty: Ty, val: V, key: Option<[u8; 32]>, fields: &mut Vec<Field>| {
+            fields.push(Field { ns: ns.clone(), name, key, ty, val });
+        };
+        let nm = |w: &str| format!("l{li}_{w}");
+        // bare
+        add(nm("bare"), l.clone(), leaf_val(&l), None, &mut fields);
+        // struct { leaf, u64 } / struct { u64, leaf }
+        d.structs.push(vec![l.clone(), Ty::U64]); let s_lu = d.structs.len() - 1;
+        d.structs.push(vec![Ty::U64, l.clone()]); let s_ul = d.structs.len() - 1;
+        add(nm("s_lu"), Ty::Struct(s_lu), V::Agg(vec![leaf_val(&l), w()]), None, &mut fields);
+        add(nm("s_ul"), Ty::Struct(s_ul), V::Agg(vec![w(), leaf_val(&l)]), None, &mut fields);
+        // tuple (leaf, leaf)
+        add(nm("t_ll"), Ty::Tuple(vec![l.clone(), l.clone()]), V::Agg(vec![leaf_val(&l), leaf_val(&l)]), None, &mut fields);
+        // enum variant with leaf payload (union wider than the leaf)
+        d.enums.push(vec![Ty::Unit, l.clone(), Ty::Tuple(vec![Ty::U64, Ty::U64])]); let e_l = d.enums.len() - 1;
+        add(nm("e_l"), Ty::Enum(e_l), V::En(1, Box::new(leaf_val(&l))), None, &mut fields);
+        // enum variant with STRUCT payload, leaf first / last
+        d.enums.push(vec![Ty::Unit, Ty::Struct(s_lu), Ty::Struct(s_ul)]); let e_s = d.enums.len() - 1;
+        add(nm("e_slu"), Ty::Enum(e_s), V::En(1, Box::new(V::Agg(vec![leaf_val(&l), w()]))), None, &mut fields);
+        add(nm("e_sul"), Ty::Enum(e_s), V::En(2, Box::new(V::Agg(vec![w(), leaf_val(&l)]))), None, &mut fields);
+        // enum variant with TUPLE payload (leaf, u64, leaf)
+        let tup = Ty::Tuple(vec![l.clone(), Ty::U64, l.clone()]);
+        d.enums.push(vec![tup.clone(), Ty::U64]); let e_t = d.enums.len() - 1;
+        add(nm("e_t"), Ty::Enum(e_t), V::En(0, Box::new(V::Agg(vec![leaf_val(&l), w(), leaf_val(&l)]))), None, &mut fields);
+        // Option<leaf> = Some, Option<(leaf, u64)> = Some (explicit `in` key)
+        add(nm("o_l"), Ty::Opt(Box::new(l.clone())), V::En(1, Box::new(leaf_val(&l))), None, &mut fields);
+        let mut key = [0u8; 32]; key[0] = 0xc1; key[1] = half as u8; key[30] = 1 + li as u8; // 256 slots apart
+        add(nm("o_lu"), Ty::Opt(Box::new(Ty::Tuple(vec![l.clone(), Ty::U64]))), V::En(1, Box::new(V::Agg(vec![leaf_val(&l), w()]))), Some(key), &mut fields);
+        // Option = None followed by another field
+        add(nm("on_l"), Ty::Tuple(vec![Ty::Opt(Box::new(l.clone())), l.clone()]), V::Agg(vec![V::En(0, Box::new(V::Unit)), leaf_val(&l)]), None, &mut fields);
+        // nested struct in struct
+        d.structs.push(vec![Ty::Struct(s_lu), l.clone()]); let s_n = d.structs.len() - 1;
+        add(nm("s_n"), Ty::Struct(s_n), V::Agg(vec![V::Agg(vec![leaf_val(&l), w()]), leaf_val(&l)]), None, &mut fields);
+        // enum in struct in enum
+        d.enums.push(vec![Ty::Unit, l.clone()]); let e_in = d.enums.len() - 1;
+        d.structs.push(vec![Ty::Enum(e_in), l.clone()]); let s_e = d.structs.len() - 1;
+        d.enums.push(vec![Ty::U64, Ty::Struct(s_e)]); let e_out = d.enums.len() - 1;
+        add(nm("e_s_e"), Ty::Enum(e_out), V::En(1, Box::new(V::Agg(vec![V::En(1, Box::new(leaf_val(&l))), leaf_val(&l)]))), None, &mut fields);
     }
     Pkg { decls: d, fields }
 }
@@ -386,8 +477,18 @@ fn run_pkg(p: &Pkg, tag: &str) -> Result<Vec<String>, String> {
     Ok(lines)
 }
 
+/// package `idx` of `seed`: 0 = scenario, 1/2 = systematic family, >= 3 random
+fn make_pkg(seed: u64, idx: u64, nfields: usize) -> Pkg {
+    match idx {
+        0 => scenario_pkg(),
+        1 => systematic_pkg(0),
+        2 => systematic_pkg(1),
+        _ => { let mut r = Rng::new(seed.wrapping_mul(1_000_003).wrapping_add(idx)); gen_pkg(&mut r, nfields) }
+    }
+}
+
 fn worker(seed: u64, idx: u64, nfields: usize, out: &str) -> i32 {
-    let p = if idx == 0 { scenario_pkg() } else { let mut r = Rng::new(seed.wrapping_mul(1_000_003).wrapping_add(idx)); gen_pkg(&mut r, nfields) };
+    let p = make_pkg(seed, idx, nfields);
     match run_pkg(&p, &format!("{seed}-{idx}")) {
         Ok(lines) => { std::fs::write(out, lines.join("\n") + "\n").unwrap(); 0 }
         Err(e) => { eprintln!("sv_c12 worker seed={seed} idx={idx}: {e}"); 3 }
@@ -424,15 +525,15 @@ fn main() {
     if v.len() >= 4 && v[1] == "--show" {
         // print the generated source of package idx for seed
         let (seed, idx): (u64, u64) = (v[2].parse().unwrap(), v[3].parse().unwrap());
-        let p = if idx == 0 { scenario_pkg() } else { let mut r = Rng::new(seed.wrapping_mul(1_000_003).wrapping_add(idx)); gen_pkg(&mut r, 12) };
+        let p = make_pkg(seed, idx, 24);
         println!("{}", render(&p));
         return;
     }
     let a = args();
     let seed = seed_from_env();
-    let nfields = 12usize;
-    // package indices: 0 = scenario, corpus seeds, then random
-    let mut jobs: Vec<(u64, u64)> = vec![(seed, 0)];
+    let nfields = 24usize;
+    // package indices: 1,2 = systematic family, 0 = scenario, corpus `pkg <seed> <idx>` (idx >= 3), then random
+    let mut jobs: Vec<(u64, u64)> = vec![(seed, 1), (seed, 2), (seed, 0)];
     if let Some(c) = &a.corpus {
         for l in std::fs::read_to_string(c).unwrap_or_default().lines() {
             let l = l.trim();
@@ -441,9 +542,9 @@ fn main() {
             if f.len() == 3 && f[0] == "pkg" { jobs.push((f[1].parse().unwrap(), f[2].parse().unwrap())); }
         }
     }
-    let fixed = jobs.len();
+    // `--n` counts the RANDOM field cases; the systematic family, the scenario and the corpus come on top
     let npk = (a.n + nfields - 1) / nfields;
-    for i in 0..npk.saturating_sub(fixed).max(1) { jobs.push((seed, 1 + i as u64)); }
+    for i in 0..npk.max(1) { jobs.push((seed, 3 + i as u64)); }
     let par: usize = std::env::var("VERIF_JOBS").ok().and_then(|s| s.parse().ok()).unwrap_or(4);
     let exe = std::env::current_exe().unwrap();
     let tmp = scratch_dir("c12-out");
